@@ -632,6 +632,7 @@ impl Prop for C05 {
             "probe.band_just_below_q_accepted",
             "probe.crafted_generation_checked",
             "probe.embedded_pair_found",
+            "probe.long_index_secret_checked",
             "fault.entropy.customer-zero-draw",
         ]
     }
@@ -749,6 +750,49 @@ fn pair_codec(o: &mut Outcome, seed: u64) {
             o.violate("generated-pair-rejected-by-decoder", "RevocationPair::new", format!("a generated pair (band {}) does not decode", band));
         }
         o.bump("probe.crafted_generation_checked");
+    }
+    // (b') secrets whose index search runs long: SHA3(secret || i) is non-canonical for every i
+    // below 10 / 16 / 25 / 33 (found by an offline search, `zksim find-long-index`; verified here
+    // against the reference hash before use). Generation must walk to that index, the pair must be a
+    // hash pair, decode, and be refused with any earlier index.
+    for (k, first) in [(419u64, 10u8), (101092, 16), (2232804, 25), (640647005, 33)] {
+        let secret = Scalar::from(k).to_bytes();
+        if (0..first).any(|i| refc::rev_lock(&secret, i).is_some()) || refc::rev_lock(&secret, first).is_none() {
+            crate::harness_error("C05: a long-index secret does not have the recorded first canonical index");
+        }
+        let mut wide = secret.to_vec();
+        wide.extend_from_slice(&[0u8; 32]);
+        let mut f = std::collections::BTreeMap::new();
+        f.insert(0usize, EntropyFault::Bytes(wide));
+        let mut rng = SimRng::with_faults(seed, "c05/long-index-secret", f);
+        let pair = zkabacus_crypto::internal::test_new_revocation_pair(&mut rng);
+        o.events += 1;
+        o.bump("fault.entropy.crafted-revocation-secret");
+        let sb = pair.revocation_secret().as_bytes();
+        if sb[..32] != secret[..] {
+            crate::harness_error("C05: the crafted entropy stream did not produce the intended secret");
+        }
+        let ok = refc::rev_lock(&sb[..32], sb[32]).map(|l| refc::scb(&l) == pair.revocation_lock().as_bytes()).unwrap_or(false);
+        if !ok {
+            o.violate("generated-pair-not-hash-pair", "RevocationPair::new", format!("pair generation from a secret whose first canonical digest is at index {} returns index {} and a lock that is not the canonical-scalar SHA3 hash of (secret, index)", first, sb[32]));
+        }
+        if bincode::deserialize::<za_pair::RevocationPair>(&crate::atoms::encode(&pair)).is_err() {
+            o.violate("generated-pair-rejected-by-decoder", "RevocationPair::new", format!("a generated pair (first canonical index {}) does not decode", first));
+        }
+        // the reference pair through the decoder, and the same secret under earlier indices
+        let lock = refc::scb(&refc::rev_lock(&secret, first).unwrap());
+        for idx in [first, 0, first - 1] {
+            let mut b = lock.to_vec();
+            b.extend_from_slice(&secret);
+            b.push(idx);
+            o.events += 1;
+            match bincode::deserialize::<za_pair::RevocationPair>(&b) {
+                Ok(_) if idx != first => o.violate("decoded-pair-not-hash-pair", "RevocationPair", format!("the pair (H(secret, {}), secret, {}) decodes", first, idx)),
+                Err(_) if idx == first => o.violate("valid-pair-refused", "RevocationPair", format!("a valid pair whose index is {} is refused by the decoder", first)),
+                _ => {}
+            }
+        }
+        o.bump("probe.long_index_secret_checked");
     }
     // (c) pairs that enter the program inside something else: every stored customer stage and
     // every message of an honest session that carries a (lock, secret, index) triple is decoded
